@@ -137,7 +137,13 @@ def call(I, name, args, kwargs, fr):
                     return f.old_ghost[key]
                 f = f.closure
             # not in the snapshot: the ghost was untouched before the snapshot, i.e. still its initial value
-            return st.ghost_init.get(key, st.ghost[key])
+            if key not in st.ghost_init:
+                # assigned (by a callee contract) without ever having been read: its initial value is arbitrary
+                ty = I.E.ghost_types.get(key)
+                if ty is None:
+                    raise Unsupported("ghost %s undeclared" % key)
+                st.ghost_init[key] = I.fresh_of_type(ty, "ghost.%s!init" % key)
+            return st.ghost_init[key]
         return st.ghost[key]
     if name == "fn":
         # uninterpreted function application  fn("name", "ret", args...)
